@@ -278,6 +278,8 @@ func genValue(t *rapid.T, label string, maxLen int) []vh.Seg {
 		return nil
 	}
 	units := [][]byte{[]byte("x"), []byte("ab"), []byte("é"), []byte("\\n"), []byte("\\\\"), []byte("\\t\\q"), []byte("\\"), {0xff, 0x00}, []byte("\n"), []byte("=\" ")}
+	// a backslash followed by any byte at all (documented escapes, unknown ASCII escapes, UTF-8 lead and continuation bytes, NUL)
+	units = append(units, []byte{'\\', rapid.Byte().Draw(t, label+"Esc")}, []byte{'\\', rapid.Byte().Draw(t, label+"Esc2"), 'q', '\\', rapid.Byte().Draw(t, label+"Esc3")})
 	var segs []vh.Seg
 	remaining := n
 	parts := rapid.IntRange(1, 3).Draw(t, label+"Parts")
@@ -376,6 +378,22 @@ func enumLengths(yield func(Case) bool) {
 			c := Case{Names: []string{"plain", "copied", "unesc", "envf", "inl"}, MaxFields: 5, Env: []int{3},
 				Rewrites: []Rewrite{{Field: 1, Last: "copy"}, {Field: 2, Inline: []int{4}, Last: "unescape"}},
 				Values:   [][]vh.Seg{val, val, val, val, {{Raw: []byte("K"), Rep: n % 3}}}, Sec: 1600000000, Nsec: 5, Outputs: 1}
+			if !yield(c) {
+				return
+			}
+		}
+	}
+	// every byte value behind a backslash (in the middle, doubled, and as the last two bytes of the value), in a field
+	// rewritten by unescape, by inline+unescape, and by copy: only the six documented escapes may change anything
+	for b := 0; b < 256; b++ {
+		for _, shape := range [][]vh.Seg{
+			{{Raw: []byte("x\\"), Rep: 1}, {Raw: []byte{byte(b)}, Rep: 1}, {Raw: []byte("y"), Rep: 1}},
+			{{Raw: []byte("\\"), Rep: 1}, {Raw: []byte{byte(b)}, Rep: 1}},
+			{{Raw: []byte("\\\\\\"), Rep: 1}, {Raw: []byte{byte(b)}, Rep: 1}, {Raw: []byte("\\"), Rep: 1}, {Raw: []byte{byte(b)}, Rep: 2}},
+		} {
+			c := Case{Names: []string{"plain", "copied", "unesc", "envf", "inl", "unesc2"}, MaxFields: 6, Env: []int{3},
+				Rewrites: []Rewrite{{Field: 1, Last: "copy"}, {Field: 2, Inline: []int{4}, Last: "unescape"}, {Field: 5, Last: "unescape"}},
+				Values:   [][]vh.Seg{shape, shape, shape, shape, {{Raw: []byte("K"), Rep: b % 3}}, shape}, Sec: 1600000000, Nsec: 5, Outputs: 1 + b%2}
 			if !yield(c) {
 				return
 			}
